@@ -14,7 +14,7 @@ TRUST = ("TLC (explicit-state model checker) and the TLA+ CommunityModules Json 
 
 T = {
     "C01": dict(
-        tech="TLA+ spec (ACBase oracle, ACAutomaton, ACSearch, ACIter) model-checked with TLC; product exploration of the real automata against the spec automaton (TLC); TLC trace validation of recorded find/find_iter calls",
+        tech="TLA+ spec (ACBase oracle, ACAutomaton, ACBuild refinement of the imperative construction, ACSearch, ACIter) model-checked with TLC; product exploration of the real automata against the spec automaton (TLC); TLC trace validation of recorded find/find_iter calls",
         text="TLC exhausts the search and iterator machines against the declarative leftmost oracle for all pattern lists/haystacks/spans within small bounds (design level), explores the product of every dumped real automaton with the specification automaton to a fixed point (so all haystacks of every length for those automata), and validates recorded calls of the real API against the oracle.",
         ref="6 C01"),
     "C02": dict(
@@ -22,11 +22,11 @@ T = {
         text="Same machinery as C01 for standard semantics: earliest-end/longest/first-supplied oracle; inherited match lists of every reachable state are compared with the specification's M().",
         ref="6 C02"),
     "C03": dict(
-        tech="TLA+ spec ACOverlap (OverlappingState step machine with call history) model-checked with TLC; product exploration of match lists; trace validation of overlapping iterator and stepwise calls incl. calls past exhaustion",
+        tech="TLA+ spec ACOverlap (OverlappingState step machine with call history) and ACBuild (match-list inheritance of the imperative construction) model-checked with TLC; product exploration of match lists; trace validation of overlapping iterator and stepwise calls incl. calls past exhaustion",
         text="TLC explores every call history on one OverlappingState against the overlapping oracle (prefix, exactly once, stays None); the real per-state match lists are compared with the specification for every reachable state; real iterator/stepwise results are validated line by line.",
         ref="6 C03"),
     "C04": dict(
-        tech="product exploration (bisimulation up to observations) of each real automaton representation/option with the one TLA+ specification automaton, by TLC; trace validation of identical calls through all kinds and the top-level searcher",
+        tech="TLA+ refinement models of the re-encodings (ACRepr contiguous state encoding, ACDfaRow byte classes + DFA row filling) model-checked with TLC; product exploration (bisimulation up to observations) of each real automaton representation/option with the one TLA+ specification automaton, by TLC; Debug-dump equality of the top-level searcher with the low-level automaton built with the same options; trace validation of identical calls through all kinds and the top-level searcher",
         text="Every representation (noncontiguous with 4 dense depths, contiguous with 6 dense-depth/byte-class settings, DFA with 3 start kinds x byte classes, with/without prefilter) is shown observationally equivalent to the same specification automaton on its entire reachable product, hence to each other for haystacks of every length; API-level calls through all seven kinds/entry levels are validated against the oracle.",
         ref="6 C04"),
     "C05": dict(
@@ -38,7 +38,7 @@ T = {
         text="The window arithmetic, bucket assignment, candidate over-approximation and (position, bucket, semantic order) verification are exhausted for small vector widths over all patterns/haystacks/spans against the leftmost oracle (PackedCorrect, Coverage, LoadInBounds). On this CPU (SSSE3+AVX2) Rabin-Karp, slim 128, slim 256, fat 256, only_teddy and the default are each run on haystacks of length 0..67 with a match planted at every offset, fillers sharing nybbles, colliding fingerprints, >8/>16 prefixes and up to 128 patterns; find_in and find_iter results are validated by TLC.",
         ref="6 C06", note=TRUST + "; SIMD lane semantics and the 64-bit hash arithmetic are not modelled bit-exactly (bound through results)"),
     "C07": dict(
-        tech="TLA+ spec ACStream (Buffer fill/roll + StreamChunkIter, nondeterministic reader) model-checked with TLC over all read schedules and capacities; TLC trace validation (TraceStream) of recorded runs of the real stream search with scripted readers and hooked buffer capacity",
+        tech="TLA+ spec ACStream (Buffer fill/roll + StreamChunkIter, nondeterministic reader) model-checked with TLC over all read schedules and capacities; TLC-generated behaviours (GenStream) replayed into the real code and TLC trace validation (TraceStream) of recorded runs of the real stream search with scripted readers and hooked buffer capacity",
         text="TLC explores every read-size schedule for every small stream / pattern list / capacity min+{1,2,3,6} and checks that matches equal the in-memory iterator's (MatchPrefix, Complete) and the buffer indices never go wrong; every recorded run of the real StreamFindIter / stream replacement (exhaustive scripts on short streams at minimal capacities, seeded random longer ones up to the default capacity) is replayed action by action through the same specification, with all invariants evaluated at each step.",
         ref="6 C07", note=TRUST + "; hook H1 (buffer capacity override, cfg aho_corasick_verif) is the only instrumentation: reads, writes and closure calls are observed from outside"),
     "C08": dict(
@@ -90,7 +90,7 @@ T = {
         text="Every combination of requested kind x match kind x start kind x 4 option sets is built for collections of diverse shape (none, only empty, duplicates, all 256 bytes, 256-way fan-out, 300-byte pattern, 100/101 patterns, nested, random; thorough: thousands of patterns) under catch_unwind; TLC checks success, the honoured kind, patterns_len/min/max/per-pattern lengths/match kind/start kind, and that the id in a match names a pattern that occurs there. The automatic choice is compared with the model at drift level only.",
         ref="6 C20", note=TRUST + "; limit-exceeding collections (>= 2^24 states) are not attempted"),
     "C16": dict(
-        tech="product exploration of the real automata (all reachable states x all bytes x both anchoring arguments) with the TLA+ specification automaton by TLC; trace validation of the documented caller-written loop vs the built-in search",
+        tech="TLA+ models ACShuffle (special-state id layout, remapper) and ACDfaBoth (interleaved DFA copies) model-checked with TLC; product exploration of the real automata (all reachable states x all bytes x both anchoring arguments) with the TLA+ specification automaton by TLC; trace validation of the documented caller-written loop vs the built-in search",
         text="For each dumped automaton the local contract (dead absorbing, dead/match special, special => dead/match/start, valid non-empty match lists, start_state errors) is evaluated by TLC on every state of the closure under both anchoring arguments, and the consistent-mode product agrees with the specification; the documented recipe, run on the real automata, is validated against the oracle next to try_find.",
         ref="6 C16"),
 }
